@@ -138,3 +138,10 @@ Theorem C04_eig_contract_full_rank_satisfiable (F : rcfType) n (W : 'M[F]_n) :
 Proof. exact: eig_top_full. Qed.
 Print Assumptions C04_eig_contract_full_rank_satisfiable.
 
+(* the reduced-QR contract is satisfiable: Householder QR by induction on the dimensions (lib/MxSpectral.v, qr_exists),
+   turned into functions by the choice operator of MathComp's choiceType (no axiom) *)
+Theorem C04_qr_contract_satisfiable (F : rcfType) :
+  qr_contract (fun n m k (C : 'M[F]_(n, m)) => (qr_pair k C).1) (fun n m k (C : 'M[F]_(n, m)) => (qr_pair k C).2).
+Proof. exact: qr_contract_satisfiable. Qed.
+Print Assumptions C04_qr_contract_satisfiable.
+
